@@ -453,15 +453,36 @@ Definition refusal_justified (c : config) (a : astate) (m : omap) (o : op) : boo
                            span below a closed owner;
    class 3 (plain error)   a second SetPeer / SetProtocol / SetService, SetService
                            before SetProtocol, a negative size;
-   class 4 (per-IP cap)    OpenConnection from an endpoint with an IP address.
+   class 4 (per-IP cap)    OpenConnection from an endpoint with an IP address whose governing
+                           prefix / one of whose subnets is at its cap (cap_reached).
    Anything else - a closed-scope or plain error from OpenConnection, OpenStream or a
    first SetPeer / SetProtocol / SetService, a limit refusal that does not carry
    the sentinel - is a violation. *)
+(* the per-subnet limiter may refuse an endpoint only when the rule that governs it is
+   at its cap, counting the connections that are open according to the history *)
+Definition cap_reached (c : config) (ips : list ipaddr) (ip : ipaddr) : bool :=
+  match pre_of c ip with
+  | Some (i, cap) =>
+      zcount (fun x => Bool.eqb (ip_v6 x) (ip_v6 ip) &&
+                       match pre_of c x with Some (j, _) => j =? i | None => false end) ips + 1 >? cap
+  | None =>
+      existsb (fun rule =>
+                 match prefix_key ip (fst rule) with
+                 | None => true
+                 | Some k =>
+                     zcount (fun x => Bool.eqb (ip_v6 x) (ip_v6 ip) &&
+                                      match pre_of c x with Some _ => false | None => true end &&
+                                      match prefix_key x (fst rule) with Some k' => k' =? k | None => false end) ips + 1
+                     >? snd rule
+                 end)
+              (if ip_v6 ip then sub6 c else sub4 c)
+  end.
+
 Definition closed_owner (a : astate) (t : sid) : bool := a_dead a t || existsb (a_dead a) (a_chain a t).
 
-Definition other_refusal_ok (a : astate) (o : op) (cls : Z) : bool :=
+Definition other_refusal_ok (c : config) (a : astate) (o : op) (cls : Z) : bool :=
   match o with
-  | OOpenConn _ _ _ ep => (cls =? 4) && match ep with Some _ => true | None => false end
+  | OOpenConn _ _ _ ep => (cls =? 4) && match ep with Some ip => cap_reached c (open_ips a false) ip | None => false end
   | OSetPeer i _ =>
       (cls =? 3) && match nget (aconns a) i with
                     | Some ac => match ac_peer ac with Some _ => true | None => false end
@@ -483,8 +504,8 @@ Definition other_refusal_ok (a : astate) (o : op) (cls : Z) : bool :=
   | _ => false
   end.
 
-Definition answer_ok (a : astate) (o : op) (cls : Z) : bool :=
-  (cls =? 0) || (cls =? 1) || other_refusal_ok a o cls.
+Definition answer_ok (c : config) (a : astate) (o : op) (cls : Z) : bool :=
+  (cls =? 0) || (cls =? 1) || other_refusal_ok c a o cls.
 
 (* which of the three checks beyond the core (answer legality, sums, signs,
    limits) are switched on: the priority threshold after a successful
@@ -572,7 +593,7 @@ Definition mon_step_gen (ck : checks) (c : config) (a : astate) (m : omap) (o : 
       let a' := match pick with Some cand => cand | None => a1 end in
       match check_after ck c a' m' o cls with
       | [] =>
-          if ck_just ck && negb (answer_ok a o cls) then inr [CL_ANSWER; cls; 1]
+          if ck_just ck && negb (answer_ok c a o cls) then inr [CL_ANSWER; cls; 1]
           else if ck_just ck && (cls =? 1) && negb (refusal_justified c a m o)
           then inr [CL_UNJUST; cls]
           else inl (a', m')
